@@ -81,6 +81,39 @@ func genLemma(P *Program, lm *Lemma) (ob *Obligation, err error) {
 	for _, c := range lm.Ensures {
 		goals = append(goals, vc.evalBool(c.E, env, st, st))
 	}
+	// previously stated lemmas used as hypotheses (each is an obligation of
+	// its own)
+	for _, u := range lm.Uses {
+		var ul *Lemma
+		for _, x := range P.contracts.Lemmas {
+			if x.Name == u {
+				ul = x
+			}
+		}
+		if ul == nil {
+			return nil, fmt.Errorf("lemma %s uses unknown lemma %s", lm.Name, u)
+		}
+		uenv := &Env{vc: vc, names: map[string]envEntry{}, pkg: pkg}
+		var binders, uh []string
+		for _, p := range ul.Params {
+			t := P.resolveType(p.Type, pkg)
+			name := "|u:" + ul.Name + ":" + p.Name + "|"
+			v := Val{K: kindOf(t), T: t, S: name}
+			binders = append(binders, "("+name+" "+sortOfType(t)+")")
+			if g := vc.typeAssume(v, st.alloc); g != "true" {
+				uh = append(uh, g)
+			}
+			uenv.names[p.Name] = envEntry{val: &v}
+		}
+		for _, c := range ul.Requires {
+			uh = append(uh, vc.evalBool(c.E, uenv, st, st))
+		}
+		var ug []string
+		for _, c := range ul.Ensures {
+			ug = append(ug, vc.evalBool(c.E, uenv, st, st))
+		}
+		hyps = append(hyps, fmt.Sprintf("(forall (%s) (=> %s %s))", strings.Join(binders, " "), and(uh...), and(ug...)))
+	}
 	if lm.Induct != "" {
 		me, perr := parseExpr(lm.Induct)
 		if perr != nil {
